@@ -12,11 +12,14 @@ import (
 // candidate still shows the failure of interest (it has to be cheap and
 // must not panic). The result is the canonical witness text; many random
 // inputs hitting one root cause converge to few such texts.
-func Reduce(src string, test func(string) bool) string {
+func Reduce(src string, test func(string) bool) string { return ReduceN(src, test, 4000) }
+
+// ReduceN is Reduce with an explicit budget of oracle runs (best effort: when
+// the budget is used up the smallest failing text found so far is returned).
+func ReduceN(src string, test func(string) bool, budget int) string {
 	if !test(src) {
 		return src
 	}
-	budget := 4000 // oracle runs; reduction is best effort
 	t := func(s string) bool {
 		if budget <= 0 {
 			return false
@@ -130,10 +133,11 @@ func Tokens(s string) []string {
 	return out
 }
 
+// keepWords are never renamed (language keywords and the canonical names
+// themselves); every other word is renamed when the failure survives it.
 var keepWords = map[string]bool{"package": true, "templ": true, "css": true, "script": true, "if": true, "else": true, "for": true,
 	"switch": true, "case": true, "default": true, "range": true, "func": true, "return": true, "var": true, "const": true, "type": true,
-	"import": true, "struct": true, "string": true, "children": true, "class": true, "style": true, "href": true, "action": true,
-	"a": true, "form": true, "div": true, "br": true, "input": true, "x": true, "nil": true, "map": true, "any": true, "int": true, "bool": true}
+	"import": true, "struct": true, "children": true, "div": true, "x": true}
 
 // canonTokens renames every identifier to "x", every string to "x" and every
 // number to 1 where the failure survives, so that the witness does not depend
@@ -173,6 +177,20 @@ func canonTokens(s string, test func(string) bool) string {
 		}
 		if test(strings.Join(cand, "")) {
 			toks = cand
+		} else if repl == "div" {
+			// a void element (<img …>) has no close tag: rename and close it
+			for j := i; j < len(cand); j++ {
+				if cand[j] == ">" {
+					if j > 0 && cand[j-1] == "/" {
+						break
+					}
+					c2 := append(append(append([]string{}, cand[:j+1]...), "</div>"), cand[j+1:]...)
+					if test(strings.Join(c2, "")) {
+						toks = Tokens(strings.Join(c2, ""))
+					}
+					break
+				}
+			}
 		}
 	}
 	return strings.Join(toks, "")
